@@ -77,6 +77,13 @@ One(d) ==
    /\ \A sh2 \in {s2 \in Variants(d) : Size(s2) = Size(ConformShape(d)) /\ s2 # ConformShape(d)} \cup {<<Size(ConformShape(d))>>, <<1>> \o ConformShape(d)} :
          P(CaseReshapedBetweenCalls(g, "x1", ConformShape(d), sh2, <<"one_input">>))
    /\ P(CaseOf(g, [nm \in {"x1"} |-> Nil], <<"one_input", "nil_tensor">>))
+   \* the declaration may name an element type the interpreter has no tensors for (FLOAT16, BFLOAT16, STRING, COMPLEX64) or another one
+   \* than the caller supplies (INT64 declared, float32 supplied): the signature Run enforces is names, ranks and fixed dimensions
+   /\ \A dtx \in {"f16", "bf16", "string", "c64", "i64"} :
+         LET gx == [g EXCEPT !.inputs = [i \in 1..Len(g.inputs) |-> [g.inputs[i] EXCEPT !.dt = dtx]]] IN
+         /\ \A sh \in {ConformShape(d), ConformShape(d) \o <<2>>, <<>>, [ConformShape(d) EXCEPT ![Len(d)] = 7]} :
+               P(CaseOf(gx, Supply({"x1"}, [nm \in {"x1"} |-> sh]), <<"one_input", "declared_type_" \o dtx>>))
+         /\ P(CaseOf(gx, <<>>, <<"one_input", "declared_type_" \o dtx, "missing">>))
    /\ P(CaseOf(g, [nm \in {"x1", "extra"} |-> IF nm = "extra" THEN Nil ELSE Iota("f32", ConformShape(d), 0)], <<"one_input", "extra_name_nil">>))
    /\ P(CaseOf(g, Supply({"other"}, [nm \in {"other"} |-> ConformShape(d)]), <<"one_input", "wrong_name">>))
    /\ P(CaseOf(g, Supply({"x1", "extra"}, [nm \in {"x1", "extra"} |-> ConformShape(d)]), <<"one_input", "extra_name">>))
